@@ -9,6 +9,8 @@ CONSTANTS
   SaveAsSet = {"none", "file", "dir"}
   Modes = {"deleted", "truncated", "nonjson", "unknown", "shape", "datagone"}
   MayFail = TRUE
+  PoolSet = {FALSE, TRUE}
+  AssembleMode = "index"
   MaxFaults = 4
 INVARIANT RoundTrip
 INVARIANT ErrorsPersisted
